@@ -9,11 +9,11 @@ ENTRY = {
                 "ordinary, spring-forward, fall-back and midnight-transition days) at probe instants (half-hour grid, +-1 ns around every wall-clock range edge, local midnight and transition, "
                 "both occurrences of repeated times); every table row is replayed into the real schedule.Weekly (built through UnmarshalJSON/UnmarshalYAML) and a sample through "
                 "PUT /control/blocked_services/update + DNSFilter.ApplyAdditionalFiltering + CheckHost at that virtual time (synctest), global and per-client schedule; "
-                "30324 serialisation vectors (whole-ms and sub-millisecond bounds down to 1 ns) go through both decoders/encoders (verdict + round trips); every row is evaluated with the instant given in 5 representations (UTC, schedule zone, +05:45, Local, 12 h away). Random triples and random serialised schedules recorded from the real code are judged by TraceSchedule.tla.",
+                "30324 serialisation vectors (whole-ms and sub-millisecond bounds down to 1 ns) go through both decoders/encoders (verdict + round trips); every row is put to 2 long-lived Weekly objects (ascending, then descending/shuffled instant order) with the instant given in 5 representations (UTC, schedule zone, +05:45, Local, 12 h away); every document is decoded into fresh and into already populated receivers. Random triples and random serialised schedules recorded from the real code are judged by TraceSchedule.tla.",
         "design_ref": "DESIGN.md section 4 C18",
         "note": "Trusted: TLC; the host tz database as read by Go's time package (tables via Time.ZoneBounds, cross-checked per instant against Time.In(loc).Zone/Clock/Weekday); "
                 "conc()/projection of the two zz_verif_c18_test.go files. Instants 2000-01-05..2037-12-20. Instants are classes, not every nanosecond. "
-                "Statement-silent inputs (start = end # 0, ranges of <= 24h reaching past 24:00) admit both verdicts. "
+                "Only start = end at a whole minute in (00:00, 24:00] admits both verdicts; a bound after 24:00 is rejected. "
                 "JSON fractions limited to multiples of 1/64 ms (exact binary floats), others through YAML. Finding contains-elapsed-since-midnight-on-transition-day fixed in /repo (a52b228).",
         "technique": "TLA+ spec checked exhaustively by TLC on abstract classes; TLC verdict tables over real tz tables replayed into real code + TLC trace validation",
     }
